@@ -44,6 +44,21 @@
 (*   amino-JSON, legacy EIP-712 (sequence checked in the signature         *)
 (*   decorator, incremented once per transaction).                         *)
 (*                                                                         *)
+(* PART 0 - the scenario space (Worlds).  The statement is unconditional:   *)
+(*   it holds whatever the fee market charges (fees: "priced" | "free" =   *)
+(*   no base fee, minimum gas price 0, transactions that carry no fee at   *)
+(*   all), however the account objects of the parties are stored (accts:   *)
+(*   "eth" = EthAccount | "base" = plain cosmos BaseAccount, as accounts   *)
+(*   imported with a genesis file are) and however the chain state came to *)
+(*   be (origin: "genesis" | "migrated" = the parameters of x/evm went      *)
+(*   through the in-place store migrations of a software upgrade).  P does *)
+(*   not mention the world: every order script and the whole mutation      *)
+(*   matrix are run in the worlds enumerated from Worlds, and judged by    *)
+(*   the same P.  Besides x/vesting messages, the account object of a      *)
+(*   party is re-written by the EVM state commit of ANY Ethereum            *)
+(*   transaction that touches it (event kind "touch": a third party pays   *)
+(*   1 aISLM to the account).                                              *)
+(*                                                                         *)
 (* PART 2 - the mutation matrix: an enumerated input space                 *)
 (*   Cases = route x field x mutation kind, and ClassOf(case), the demand  *)
 (*   of the statement for that case ("signed", "sig", "foreign", "replay"  *)
@@ -64,7 +79,13 @@ CONSTANTS
 
 DefectNames == {"no_increment", "nonce_not_checked", "chain_not_checked", "sig_not_checked", "check_leaks",
                 "rewrite_resets_sequence"}
-EventKinds  == {"convert", "merge", "funder", "clawback", "back"}
+EventKinds  == {"convert", "merge", "funder", "clawback", "back", "touch"}
+
+\* the scenario space: every scenario (order script, matrix run) lives in one world
+FeeModes  == {"priced", "free"}
+AcctKinds == {"eth", "base"}
+Origins   == {"genesis", "migrated"}
+Worlds    == [fees : FeeModes, accts : AcctKinds, origin : Origins]
 
 EthRoutes    == {"eth-legacy", "eth-accesslist", "eth-dynamicfee"}
 CosmosRoutes == {"cosmos-direct", "cosmos-amino-json"}
@@ -222,7 +243,7 @@ MResult(s, ev, args) ==
       \* sequence number of the signer args.by, the message touches nobody's sequence
       [] ev = "event" ->
            [ok |-> TRUE, post |->
-              IF "rewrite_resets_sequence" \in Defects /\ args.kind = "convert"
+              IF "rewrite_resets_sequence" \in Defects /\ args.kind \in {"convert", "touch"}
               THEN [s EXCEPT !.seq[args.target] = 0]
               ELSE IF args.by \in DOMAIN s.seq THEN [s EXCEPT !.seq[args.by] = @ + 1] ELSE s]
       [] ev = "submit" /\ args.mode = "deliver" ->
@@ -266,7 +287,7 @@ NSub == Cardinality({i \in DOMAIN hist : hist[i].ev = "submit"})
 Next ==
     \/ (NSub < MaxSub /\ \E tx \in Pool, mode \in {"check", "deliver"} : Submit(tx, mode))
     \/ (NSub > 0 /\ hist[Len(hist)].ev # "commit" /\ Commit)
-    \/ (NSub > 0 /\ NEvents < MaxEvents /\ \E k \in {"convert", "back"}, a \in Signers : Event(k, a))
+    \/ (NSub > 0 /\ NEvents < MaxEvents /\ \E k \in {"convert", "back", "touch"}, a \in Signers : Event(k, a))
 
 Spec == Init /\ [][Next]_vars
 
@@ -327,11 +348,12 @@ SimInit ==
 
 \* an event that fits what the scripts did to the account so far (the harness tries it anyway)
 IsVesting(a, h) ==
-    LET evs == {i \in DOMAIN hist : hist[i].ev = "event" /\ hist[i].target = a} IN
+    LET evs == {i \in DOMAIN hist : hist[i].ev = "event" /\ hist[i].target = a /\ hist[i].kind # "touch"} IN
     evs # {} /\ hist[CHOOSE i \in evs : \A j \in evs : j <= i].kind # "back"
 SimEvent(h) ==
     LET a == Pick(SimSigners, h) IN
-    IF IsVesting(a, h) THEN [kind |-> Pick({"merge", "funder", "clawback", "back", "back"}, h), target |-> a]
+    IF Pick(1..3, h) = 1 THEN [kind |-> "touch", target |-> a]
+    ELSE IF IsVesting(a, h) THEN [kind |-> Pick({"merge", "funder", "clawback", "back", "back"}, h), target |-> a]
     ELSE [kind |-> "convert", target |-> a]
 
 SimNext ==
@@ -496,10 +518,13 @@ SigOfClass(cl) == IF cl \in MustReject THEN "bad" ELSE IF cl = "vm" THEN "good" 
 \* depth-1 machine: TLC enumerates the matrix and prints every case for the harness
 MatrixNext ==
     /\ hist = <<>>
-    /\ \E c \in Cases :
-         /\ hist' = <<c>>
-         /\ PrintT(<<"CASE", ToJson([route |-> c.route, field |-> c.field, mut |-> c.mut, class |-> ClassOf(c)])>>)
-         /\ UNCHANGED <<st, executed, twice, nblocks>>
+    /\ \/ \E c \in Cases :
+            /\ hist' = <<c>>
+            /\ PrintT(<<"CASE", ToJson([route |-> c.route, field |-> c.field, mut |-> c.mut, class |-> ClassOf(c)])>>)
+       \/ \E w \in Worlds :
+            /\ hist' = <<w>>
+            /\ PrintT(<<"WORLD", ToJson(w)>>)
+    /\ UNCHANGED <<st, executed, twice, nblocks>>
 MatrixSpec == Init /\ [][MatrixNext]_vars
 
 \* model values for the configurations
